@@ -189,26 +189,192 @@ fn on_dealloc(size: usize) {
     let _ = CUR.try_with(|c| c.set(c.get() - size as isize));
 }
 
+// ---------------------------------------------------------------------------------------------
+// Guard allocator: the counting allocator doubles as a memory-safety monitor for the main run.
+//
+// The repository is `#![forbid(unsafe_code)]` today; a change that relaxes that for a hot path
+// (`get_unchecked`, `Vec::set_len`, `MaybeUninit`, `from_raw_parts`) can read bytes it never
+// wrote or bytes beyond a buffer, and in an ordinary process such reads usually return zeros or a
+// neighbour's plausible data, so value oracles see nothing.  With the guard on (default; off with
+// VERIF_GUARD_ALLOC=0, which the valgrind / ASan lanes set because filling memory would make it
+// "defined" for memcheck):
+//   * fresh memory is filled with junk (0xA7), freed memory with other junk (0xDD): a read of
+//     uninitialised or freed heap bytes yields values no reference model expects;
+//   * every block sits between two red zones (>= 16 bytes of 0xFB in front, 16 bytes of 0xFD
+//     behind): a read past either end yields junk as well, and a *write* past either end is found
+//     when the block is freed (or grown) and reported as a violation of the property whose
+//     workload was running, whatever the values looked like.
+// Correct code never reads what it has not written and never leaves its blocks, so none of this
+// can raise an alarm on a tree where the property holds.
+// ---------------------------------------------------------------------------------------------
+
+const TAIL: usize = 16;
+const FRESH: u8 = 0xA7;
+const FREED: u8 = 0xDD;
+const HEAD_BYTE: u8 = 0xFB;
+const TAIL_BYTE: u8 = 0xFD;
+
+static GUARD_MODE: std::sync::atomic::AtomicU8 = std::sync::atomic::AtomicU8::new(0);
+pub static GUARD_OVERRUNS: std::sync::atomic::AtomicU64 = std::sync::atomic::AtomicU64::new(0);
+/// size of the first overrun block << 8 | 1 (front) / 2 (behind) / 3 (both)
+pub static GUARD_FIRST: std::sync::atomic::AtomicU64 = std::sync::atomic::AtomicU64::new(0);
+pub static GUARD_BLOCKS: std::sync::atomic::AtomicU64 = std::sync::atomic::AtomicU64::new(0);
+
+thread_local! {
+    static TL_OVERRUNS: Cell<u64> = const { Cell::new(0) };
+}
+
+/// Overruns found so far when blocks were released *on this thread*.
+pub fn guard_overruns_on_this_thread() -> u64 {
+    TL_OVERRUNS.try_with(|c| c.get()).unwrap_or(0)
+}
+
+#[inline]
+pub fn guard_on() -> bool {
+    use std::sync::atomic::Ordering::Relaxed;
+    match GUARD_MODE.load(Relaxed) {
+        1 => true,
+        2 => false,
+        _ => {
+            // decided at the first allocation of the process, without allocating: every block
+            // must be released the way it was obtained
+            let v = unsafe { libc::getenv(b"VERIF_GUARD_ALLOC\0".as_ptr() as *const libc::c_char) };
+            let off = !v.is_null() && unsafe { *v } == b'0' as libc::c_char;
+            GUARD_MODE.store(if off { 2 } else { 1 }, Relaxed);
+            !off
+        }
+    }
+}
+
+#[inline]
+fn head_of(layout: &Layout) -> usize {
+    layout.align().max(16)
+}
+
+#[inline]
+unsafe fn guarded(layout: &Layout) -> Option<Layout> {
+    let total = head_of(layout).checked_add(layout.size())?.checked_add(TAIL)?;
+    Layout::from_size_align(total, layout.align()).ok()
+}
+
+unsafe fn guard_alloc(layout: Layout, zeroed: bool) -> *mut u8 {
+    let Some(outer) = guarded(&layout) else { return std::ptr::null_mut() };
+    let base = if zeroed { System.alloc_zeroed(outer) } else { System.alloc(outer) };
+    if base.is_null() {
+        return base;
+    }
+    let head = head_of(&layout);
+    std::ptr::write_bytes(base, HEAD_BYTE, head);
+    let user = base.add(head);
+    if !zeroed {
+        std::ptr::write_bytes(user, FRESH, layout.size());
+    }
+    std::ptr::write_bytes(user.add(layout.size()), TAIL_BYTE, TAIL);
+    GUARD_BLOCKS.fetch_add(1, std::sync::atomic::Ordering::Relaxed);
+    user
+}
+
+unsafe fn guard_release(user: *mut u8, layout: Layout) {
+    let head = head_of(&layout);
+    let base = user.sub(head);
+    let mut side = 0u64;
+    for i in 0..head {
+        if *base.add(i) != HEAD_BYTE {
+            side |= 1;
+            break;
+        }
+    }
+    let tail = user.add(layout.size());
+    for i in 0..TAIL {
+        if *tail.add(i) != TAIL_BYTE {
+            side |= 2;
+            break;
+        }
+    }
+    if side != 0 {
+        use std::sync::atomic::Ordering::SeqCst;
+        if GUARD_OVERRUNS.fetch_add(1, SeqCst) == 0 {
+            GUARD_FIRST.store((layout.size() as u64) << 8 | side, SeqCst);
+        }
+        let _ = TL_OVERRUNS.try_with(|c| c.set(c.get() + 1));
+    }
+    std::ptr::write_bytes(user, FREED, layout.size());
+    if let Some(outer) = guarded(&layout) {
+        System.dealloc(base, outer);
+    }
+}
+
+/// Run once at start-up: the guard must see what it claims to see (a monitor that cannot fire
+/// proves nothing).  Reads a fresh block, reads behind it, writes behind it, and expects junk, junk
+/// and a recorded overrun; the overrun it provoked itself is then taken off the counters.
+pub fn guard_self_check() -> Result<(), String> {
+    if !guard_on() {
+        return Ok(());
+    }
+    use std::sync::atomic::Ordering::SeqCst;
+    let before = GUARD_OVERRUNS.load(SeqCst);
+    let first_before = GUARD_FIRST.load(SeqCst);
+    let tl_before = guard_overruns_on_this_thread();
+    unsafe {
+        let layout = Layout::from_size_align(40, 8).unwrap();
+        let p = CountingAlloc.alloc(layout);
+        if p.is_null() {
+            return Err("allocation failed".into());
+        }
+        let fresh = std::ptr::read_volatile(p.add(7));
+        let beyond = std::ptr::read_volatile(p.add(40));
+        let before_block = std::ptr::read_volatile(p.sub(1));
+        std::ptr::write_volatile(p.add(41), 0x11);
+        CountingAlloc.dealloc(p, layout);
+        if fresh != FRESH || beyond != TAIL_BYTE || before_block != HEAD_BYTE {
+            return Err(format!("fresh/beyond/before bytes read {:#x}/{:#x}/{:#x}", fresh, beyond, before_block));
+        }
+    }
+    if GUARD_OVERRUNS.load(SeqCst) != before + 1 {
+        return Err("a write behind a block was not noticed when the block was released".into());
+    }
+    GUARD_OVERRUNS.fetch_sub(1, SeqCst);
+    GUARD_FIRST.store(first_before, SeqCst);
+    let _ = TL_OVERRUNS.try_with(|c| c.set(tl_before));
+    Ok(())
+}
+
 unsafe impl GlobalAlloc for CountingAlloc {
     unsafe fn alloc(&self, layout: Layout) -> *mut u8 {
-        let p = System.alloc(layout);
+        let p = if guard_on() { guard_alloc(layout, false) } else { System.alloc(layout) };
         if !p.is_null() {
             on_alloc(layout.size());
         }
         p
     }
     unsafe fn alloc_zeroed(&self, layout: Layout) -> *mut u8 {
-        let p = System.alloc_zeroed(layout);
+        let p = if guard_on() { guard_alloc(layout, true) } else { System.alloc_zeroed(layout) };
         if !p.is_null() {
             on_alloc(layout.size());
         }
         p
     }
     unsafe fn dealloc(&self, ptr: *mut u8, layout: Layout) {
-        System.dealloc(ptr, layout);
+        if guard_on() {
+            guard_release(ptr, layout);
+        } else {
+            System.dealloc(ptr, layout);
+        }
         on_dealloc(layout.size());
     }
     unsafe fn realloc(&self, ptr: *mut u8, layout: Layout, new_size: usize) -> *mut u8 {
+        if guard_on() {
+            // a grown block's new part is as uninitialised as a fresh block's: obtain, copy, release
+            let Ok(new_layout) = Layout::from_size_align(new_size, layout.align()) else { return std::ptr::null_mut() };
+            let p = guard_alloc(new_layout, false);
+            if !p.is_null() {
+                std::ptr::copy_nonoverlapping(ptr, p, layout.size().min(new_size));
+                guard_release(ptr, layout);
+                on_dealloc(layout.size());
+                on_alloc(new_size);
+            }
+            return p;
+        }
         let p = System.realloc(ptr, layout, new_size);
         if !p.is_null() {
             on_dealloc(layout.size());
